@@ -42,6 +42,7 @@ type Prog struct {
 	sigFuncs map[string][]*ssa.Function // address-taken functions by signature string
 	callers  map[*ssa.Function][]ssa.CallInstruction
 	anonOf   map[*ssa.Function][]*ssa.Function
+	norm     *normInfo // set when the program analysed is the normalised copy (helpers outside the vocabulary expanded)
 }
 
 func loadProg(repo string, goos string) (*Prog, error) {
@@ -308,7 +309,13 @@ func (P *Prog) pos(p token.Pos) string {
 	if err != nil || strings.HasPrefix(rel, "..") {
 		rel = ps.Filename
 	}
-	return fmt.Sprintf("%s:%d", rel, ps.Line)
+	line := ps.Line
+	if P.norm != nil {
+		if m := P.norm.lineMap[rel]; m != nil && line < len(m) {
+			line = m[line] // line of the real tree
+		}
+	}
+	return fmt.Sprintf("%s:%d", rel, line)
 }
 
 func (P *Prog) ipos(ins ssa.Instruction) string {
